@@ -172,27 +172,18 @@ def v_shr(a, n, signed=False):
 
 
 def v_add(a, b):
-    """exact when no carry can occur (disjoint possibly-set bits); otherwise
-    bits from the lowest possible carry upward are unknown"""
+    """ripple-carry addition in the bit domain: exact whenever every sum/carry bit stays a constant or a
+    single (negated) input bit - in particular when no carry can occur; other bits become unknown"""
     w = len(a)
     ca, cb = v_const(a), v_const(b)
     if ca is not None and cb is not None:
         return const(w, (ca + cb) & ((1 << w) - 1))
     out = []
-    carry_possible = False
+    c = 0
     for x, y in zip(a, b):
-        if carry_possible:
-            out.append(T)
-            continue
-        if x == 0:
-            out.append(y)
-        elif y == 0:
-            out.append(x)
-        elif x not in (T, X, 1) and y not in (T, X, 1) and x[1] == y[1] and {x[0], y[0]} == {'i', 'n'}:
-            out.append(1)      # in_k + !in_k = 1, no carry
-        else:
-            out.append(T)
-            carry_possible = True
+        xy = b_xor(x, y)
+        out.append(b_xor(xy, c))
+        c = b_or(b_and(x, y), b_and(c, xy))
     return out
 
 
